@@ -131,10 +131,14 @@ fn c14_section_header_with_name_short() {
     shwn::<3>(b".t\0");
 }
 
+/// Offsets fully symbolic, restricted to requests that cannot be served from the 6-byte image
+/// (start beyond the image, or the addition overflows): an error, never a panic.  (With an
+/// in-bounds start the C-string and lossy-UTF-8 conversions over symbolic bytes do not finish:
+/// measured > 1200 s for a 6-byte image; that path is covered with concrete offsets below.)
 #[kani::proof]
-#[kani::unwind(20)]
+#[kani::unwind(10)]
 #[kani::stub(std::fmt::format, crate::verif::env::stub_format)]
-fn c14_read_name_from_strtab() {
+fn c14_read_name_from_strtab_out_of_range() {
     let bytes: [u8; 6] = kani::any();
     let pm = ProcessMemory::Slice(&bytes);
     let header: elf::Header = unsafe { core::mem::zeroed() };
@@ -143,24 +147,39 @@ fn c14_read_name_from_strtab() {
     let ss: u64 = kani::any();
     let no: u64 = kani::any();
     kani::assume(no < ss); // asserted by the function, guaranteed by both callers
+    kani::assume(so.checked_add(no).map_or(true, |a| a >= 6));
     let r = rd.verif_read_name_from_strtab(so, ss, no);
-    if let Ok(s) = &r {
-        let a = so as usize + no as usize;
-        assert!(so.checked_add(ss).map_or(false, |e| e <= 6), "a name comes only from an in-bounds table");
-        // the name is the bytes up to the first NUL
-        let n = s.len();
-        assert!(a + n < 6 && bytes[a + n] == 0, "terminated by the first NUL");
-        let i: usize = kani::any();
-        kani::assume(i < n);
-        assert!(bytes[a + i] != 0);
-        if bytes[a + i] < 0x80 {
-            // (non-ASCII bytes are replaced by U+FFFD, which changes lengths; ASCII stays in place
-            //  only when no earlier byte was replaced)
-        }
-    }
-    kani::cover!(matches!(&r, Ok(s) if s.len() >= 2), "a name of at least 2 bytes");
-    kani::cover!(r.is_err(), "an error");
+    assert!(r.is_err(), "nothing can be read from outside the image");
     kani::cover!(so.checked_add(no).is_none(), "offset arithmetic would overflow");
+    kani::cover!(so.checked_add(no).is_some(), "plain out of range");
+    core::mem::forget(r);
+    core::mem::forget(rd);
+}
+/// Concrete offsets (table at 1, 5 bytes, name at +1), symbolic bytes: the name is the bytes up to the first NUL.
+#[kani::proof]
+#[kani::unwind(10)]
+#[kani::stub(std::fmt::format, crate::verif::env::stub_format)]
+fn c14_read_name_from_strtab_in_range() {
+    let bytes: [u8; 6] = kani::any();
+    kani::assume(bytes[2] < 0x80 && bytes[3] < 0x80 && bytes[4] < 0x80 && bytes[5] < 0x80);
+    let pm = ProcessMemory::Slice(&bytes);
+    let header: elf::Header = unsafe { core::mem::zeroed() };
+    let mut rd = ModuleReader::verif_from_parts(pm, header, Ctx::new(Container::Big, Endian::Little));
+    let r = rd.verif_read_name_from_strtab(1, 5, 1);
+    let has_nul = bytes[2] == 0 || bytes[3] == 0 || bytes[4] == 0 || bytes[5] == 0;
+    match &r {
+        Ok(s) => {
+            assert!(has_nul);
+            let n = s.len();
+            assert!(2 + n < 6 && bytes[2 + n] == 0, "terminated by the first NUL");
+            let i: usize = kani::any();
+            kani::assume(i < n);
+            assert!(bytes[2 + i] != 0 && s.as_bytes()[i] == bytes[2 + i], "the bytes before it, unchanged");
+        }
+        Err(_) => assert!(!has_nul, "a terminated name is always returned"),
+    }
+    kani::cover!(matches!(&r, Ok(s) if s.len() == 2), "a 2-byte name");
+    kani::cover!(r.is_err(), "no terminator");
     core::mem::forget(r);
     core::mem::forget(rd);
 }
